@@ -442,6 +442,10 @@ def lookups_ok(core, rec, w, where):
         if a.getName() in names:
             rec.violation("ambient/duplicate-assembly-name", "%s: two children named %s" % (where, a.getName()), w)
         names[a.getName()] = a
+    sfp = getattr(core.parent, "excore", {}).get("sfp") if core.parent is not None else None
+    if getattr(core, "_trackAssems", False) and sfp is not None:
+        for a in sfp:  # tracked discharged assemblies stay in the tables (none of the C13 operations discharges, purges must not land here)
+            names.setdefault(a.getName(), a)
     abn = core.assembliesByName
     if set(abn) != set(names) or any(abn[k] is not names[k] for k in abn):
         rec.violation("ambient/assembliesByName", "%s: assembliesByName differs from the child list: stale %s missing %s" % (
@@ -452,6 +456,10 @@ def lookups_ok(core, rec, w, where):
             if b.getName() in bnames:
                 rec.violation("ambient/duplicate-block-name", "%s: two blocks named %s" % (where, b.getName()), w)
             bnames[b.getName()] = b
+    if getattr(core, "_trackAssems", False) and sfp is not None:
+        for a in sfp:
+            for b in a:
+                bnames.setdefault(b.getName(), b)
     bbn = core.blocksByName
     if set(bbn) != set(bnames) or any(bbn[k] is not bnames[k] for k in bbn):
         rec.violation("ambient/blocksByName", "%s: blocksByName differs from the blocks of the children: stale %s missing %s" % (
@@ -1328,7 +1336,8 @@ def run_shard(spec, rec):
         cspec, meta = make_core_spec(rng, spec["maxrings"], spec.get("big", False))
         _CTX["w"] = {"case": i, "core": meta, "during": "build"}
         try:
-            r, cs, bp, text = gen.build_reactor(cspec)
+            meta["trackAssems"] = rng.random() < .5  # purges during restore / remove-edge must leave the name tables clean either way
+            r, cs, bp, text = gen.build_reactor(cspec, {"trackAssems": True} if meta["trackAssems"] else None)
         except Exception as e:
             if not meta["centre"]:
                 rec.skip("third core without a centre assembly could not be built (%s)" % type(e).__name__)
